@@ -171,12 +171,10 @@ class ASTSchemaPrinter:
     def print_deprecated(
         self, field_or_enum_value: Union[Field, EnumValue]
     ) -> str:
-        if not field_or_enum_value.deprecated:
+        reason = field_or_enum_value.deprecation_reason
+        if not field_or_enum_value.deprecated and reason is None:
             return ""
-        elif (
-            not field_or_enum_value.deprecation_reason
-            or field_or_enum_value.deprecation_reason == DEFAULT_DEPRECATION
-        ):
+        elif reason is None or reason == DEFAULT_DEPRECATION:
             return " @deprecated"
         return " @deprecated(reason: %s)" % print_ast(
             ast_node_from_value(field_or_enum_value.deprecation_reason, String)
